@@ -58,6 +58,14 @@ def plan (c : Cfg) : List Op × Obj :=
   let ops4 := if needsRules && c.hasRules then [Op.write .rules dg3] else []
   (ops0 ++ ops1 ++ ops2 ++ ops3 ++ ops4, dg3)
 
+/-- `validate(..., sparql_mode=True)`: the entry point and `Validator` reject SHACL-JS, a caller-requested
+    `inplace`, an ontology graph, shapes embedded in the data graph and every pre-inference option; then
+    `inplace` is forced on (the remote graph is never cloned) and SHACL rules are skipped with a warning.
+    `none` ⇔ ReportableRuntimeError before anything is validated. -/
+def planSparql (c : Cfg) (js callerInplace : Bool) : Option (List Op × Obj) :=
+  if js || callerInplace || c.hasOnt || c.shapesInData || c.inference then none
+  else some ([Op.write .system .shapes, Op.read .rules .data], .data)
+
 /-- heap: content of each object, for an arbitrary content type -/
 abbrev Heap (G : Type) := Obj → G
 
